@@ -543,7 +543,10 @@ func cmdWire(args []string) int {
 	node, err := NewNode(ctx, NodeOpts{ID: 1, Stores: append([]e2wtypes.Store{st0}, fx.Stores...), Perms: map[string][]*checker.Permissions{
 		"client1": {{Path: "Wallet 1", Operations: []string{"All"}}, {Path: "Wallet 2", Operations: []string{"All"}}, {Path: "Wallet N", Operations: []string{"All"}}, {Path: "Wallet D", Operations: []string{"All"}}}},
 		PeersMap: map[uint64]string{1: fmt.Sprintf("127.0.0.1:%d", freePort()), 2: fmt.Sprintf("127.0.0.2:%d", freePort()), 3: fmt.Sprintf("127.0.0.3:%d", freePort())},
-		Sender:   realSender})
+		Sender:   realSender, Prometheus: true})
+	if sharedPrometheus(ctx) != nil {
+		stats["other.prometheus-metrics"] = 1
+	}
 	if err != nil {
 		fmt.Fprintln(os.Stderr, err)
 		return 2
